@@ -331,7 +331,13 @@ def r4_shape_plumbing(ctx):
     ctx.ob(f.where, "a str is encoded from its bytes through _encode_base_encoded_array", ok, "")
 
 
+def r5_stale_shape(ctx):
+    from .c07 import r5_stale_shape as f
+    f(ctx)
+
+
 RULES = [
+    ("C06-R5", r5_stale_shape),
     ("C06-R1", r1_accepted_bytes),
     ("C06-R1b", r1b_encode_structure),
     ("C06-R2", r2_retarget_guard),
